@@ -178,6 +178,56 @@ func VerifC20Restart() {
 	vReach("end")
 }
 
+// resume then restart: a persistent session with QoS 2 exchanges at solver-chosen stages reconnects (its session
+// is inherited: the stored in-flight records are deleted and written again), then the broker restarts. What
+// broker B restores must be what broker A held in memory when it stopped.
+func VerifC20Resume() {
+	a := mqtt.New(nil)
+	_ = a.AddHook(new(mqtt.VerifAllowHook), nil)
+	ha := VerifAddNewHook(a)
+	ver := byte(vConcrete(int(vByteIn("\x04\x05")), 4, 5))
+	c1 := mqtt.VerifDial(a, ver, "c1", false, 300)
+	mqtt.VerifSend(c1, mqtt.VerifSubscribeBytes(2, "t", 2, ver))
+	pub := mqtt.VerifDial(a, 4, "pub", true, 0)
+	if vBool() { // an outbound QoS 2 message, left at PUBLISH or taken to PUBREL by the client's PUBREC
+		mqtt.VerifSend(pub, mqtt.VerifPublishBytes("t", 8, 2, 5, false, 4))
+		mqtt.VerifSend(pub, []byte{0x62, 2, 0, 5})
+		if vBool() {
+			mqtt.VerifSend(c1, []byte{0x50, 2, 0, 1})
+		}
+	}
+	if vBool() { // an outbound QoS 1 message
+		mqtt.VerifSend(pub, mqtt.VerifPublishBytes("t", 9, 1, 6, false, 4))
+	}
+	if vBool() { // an inbound QoS 2 publish from c1, answered with PUBREC and awaiting PUBREL
+		mqtt.VerifSend(c1, mqtt.VerifPublishBytes("x", 3, 2, 9, false, ver))
+	}
+	before := mqtt.VerifInflight(a, "c1")
+	// the session is resumed: by a takeover of the live connection or after a hang-up
+	if vBool() {
+		mqtt.VerifHangup(c1)
+	}
+	c1 = mqtt.VerifDial(a, ver, "c1", false, 300)
+	held := mqtt.VerifInflight(a, "c1")
+	vAssert("resumed-session-keeps-its-inflight-records", len(held) == len(before))
+	mqtt.VerifHangup(c1)
+	b := mqtt.New(nil)
+	_ = b.AddHook(new(mqtt.VerifAllowHook), nil)
+	hb := VerifAddNewHook(b)
+	VerifShareStore(hb, ha)
+	err := b.Serve()
+	vAssert("restarted-broker-starts", err == nil)
+	got := mqtt.VerifInflight(b, "c1")
+	same := len(got) == len(held)
+	for i := range got {
+		if i < len(held) && got[i] != held[i] {
+			same = false
+		}
+	}
+	vAssert("restored-inflight-records-are-those-held-when-the-broker-stopped", same)
+	vReach("end")
+}
+
 // C21: the process may die between any two storage writes (the crash index ranges over the whole write
 // log of the path). What was acknowledged to a client before the crash must be there after the restart;
 // a Clean Start 1 connection must not receive anything because of discarded sessions; writes issued for
